@@ -248,7 +248,7 @@ class C04(Property):
             if c_diff.interface_width is None:
                 c_diff = c_diff.copy()
                 c_diff.interface_width = float(grid.typical_discretization)
-            region = ndimage.binary_dilation(np.asarray(c_diff._get_phase_field(grid, dtype=bool)), iterations=1 + int(2 * c_diff.interface_width))
+            region = ndimage.binary_dilation(np.asarray(c_diff._get_phase_field(grid, dtype=bool)), iterations=1 + int(2 * c_diff.interface_width / float(grid.typical_discretization)))
 
             def dev(drop):
                 return float(np.sum((vmin + (vmax - vmin) * np.asarray(drop._get_phase_field(grid))[region] - data[region]) ** 2))
